@@ -4,6 +4,7 @@ import RelicVerif.Spec.Edwards
 import RelicVerif.Spec.Sha256
 import RelicVerif.Model.EdConv
 import RelicVerif.Gen.EdFormulas
+import RelicVerif.Model.EdMul
 
 namespace Driver.C17
 open Driver Relic.Spec.Edwards
@@ -117,6 +118,56 @@ def bytesHex (b : List UInt8) : String :=
 
 def h256 : Relic.Spec.Mac.Hash := { h := Relic.Spec.Sha256.sha256, outLen := 32, blockLen := 64 }
 
+/-! the scalar-multiplication models of Model/EdMul.lean, instantiated with the specification's curve arithmetic -/
+section Mul
+open Relic.Model.MulAlg Relic.Model.EdMul
+
+def gOps (c : Curve) : Ops Point := ⟨neutral c, add c, neg c⟩
+def isO (c : Curve) (q : Point) : Bool := (q.1 % c.p, q.2 % c.p) == neutral c
+
+def parOf (e : Env) : Par :=
+  { fpBits := e.fpbits, width := ((e.kv.lookup "width").bind String.toNat?).getD 4,
+    depth := ((e.kv.lookup "depth").bind String.toNat?).getD 4, ordBits := Relic.Model.Rec.bitLen e.r }
+
+/-- variable-base routine by name; `none` = not modelled -/
+def mulBy (e : Env) (v : String) : Option (Point → Int → Option Point) :=
+  let o := gOps e.c
+  let par := parOf e
+  match v with
+  | "basic" => some (mulBasic o (isO e.c))
+  | "lwnaf" => some (mulLwnaf o (isO e.c) par)
+  | "slide" => some (Relic.Model.EdMul.mulSlide o (isO e.c) par)
+  | "monty" => some (mulMonty o (isO e.c))
+  | "lwreg" => some (mulLwreg o (isO e.c) par)
+  | _ => none
+
+/-- fixed-base routine by name (ed_mul_pre_* + ed_mul_fix_*) -/
+def fixBy (e : Env) (v : String) : Option (Point → Int → Option Point) :=
+  let o := gOps e.c
+  let par := parOf e
+  match v with
+  | "basic" => some (Relic.Model.EdMul.mulFixBasic o par)
+  | "lwnaf" => some (mulFixLwnaf o par)
+  | "combs" => some (mulFixCombs o par)
+  | _ => none
+
+def simBy (e : Env) (v : String) : Option (Point → Int → Point → Int → Option Point) := do
+  let o := gOps e.c
+  let par := parOf e
+  let mul ← mulBy e ((e.kv.lookup "mulm").getD "")
+  match v with
+  | "basic" => some (simBasic o mul)
+  | "trick" => some (Relic.Model.EdMul.simTrick o (isO e.c) par mul)
+  | "inter" => some (Relic.Model.EdMul.simInter o (isO e.c) par mul)
+  | "joint" => some (Relic.Model.EdMul.simJoint o (isO e.c) par mul)
+  | _ => none
+
+def fmtOpt : Option Point → String
+  | some q => natToHex q.1 ++ "," ++ natToHex q.2
+  | none => "err"
+
+end Mul
+
 partial def handle (e : Env) (w : Nat) (op : String) (args : List String) (got : String) : Option Verdict :=
   let c := e.c
   let cls := fun (s : String) (tags : List String) => some ({ model := s, spec := [s], tags := tags } : Verdict)
@@ -142,7 +193,14 @@ partial def handle (e : Env) (w : Nat) (op : String) (args : List String) (got :
     | _, _, _, _ =>
     if o.startsWith "add" then cls (fmtPoint (add c p q)) tags
     else if o.startsWith "sub" then cls (fmtPoint (sub c p q)) tags
-    else if o == "cmp" then cls (if p.1 % c.p == q.1 % c.p && p.2 % c.p == q.2 % c.p then "r=0" else "r=2") tags
+    else if o == "cmp" then
+      let sp := if p.1 % c.p == q.1 % c.p && p.2 % c.p == q.2 % c.p then "r=0" else "r=2"
+      match parseRep c.p (args.getD 2 ""), parseRep c.p (args.getD 3 "") with
+      | some pr, some qr =>
+        let ops := natOps c.p
+        let nrm := fun (a : EPt Nat) => if ext then Relic.Gen.Ed.ed_norm ops cv a a else Relic.Gen.EdP.ed_norm ops cv a a
+        some { model := if edCmp ops ext nrm pr qr then "r=0" else "r=2", spec := [sp], tags := "cmp" :: tags }
+      | _, _ => cls sp tags
     else none
   | "ed1", [o, al, p] => do
     let p ← parsePoint p
@@ -178,14 +236,50 @@ partial def handle (e : Env) (w : Nat) (op : String) (args : List String) (got :
     let k ← parseHexInt k
     let p := if v == "gen" then e.g else p0
     let k := if v == "dig" then ((k.natAbs % 2 ^ w : Nat) : Int) else k
-    cls (fmtPoint (mul c p k)) (ordTag c "p" p)
+    let mulm := (e.kv.lookup "mulm").getD ""
+    let fixm := (e.kv.lookup "fixm").getD ""
+    -- model column: the loop models of Model/EdMul.lean (Model/MulAlg.lean loops, recodings of Model/Rec.lean with the C
+    -- buffer sizes) over the specification's arithmetic; "err" = the recoding does not fit
+    let f : Option (Point → Int → Option Point) :=
+      if v == "mul" then mulBy e mulm
+      else if v == "dig" then mulBy e "basic"
+      else if v == "gen" then (fixBy e fixm).map fun fx => Relic.Model.EdMul.mulGen (gOps c) fx
+      else if v == "fix_" then fixBy e fixm
+      else if v.startsWith "fix_" then fixBy e (v.drop 4).toString
+      else mulBy e v
+    let sp := fmtPoint (mul c p k)
+    -- ed_mul_fix_basic with a scalar longer than the group order reads table entries that were never computed (finding
+    -- C17-F2): what comes out depends on the memory behind the table (the harness zero-fills it, and an all-zero point is
+    -- taken for the neutral element by ed_norm), which the group-level model does not describe
+    let beyond := (v == "fix_basic" || ((v == "fix_" || v == "gen") && fixm == "basic")) &&
+      Relic.Model.Rec.bitLen k.natAbs > Relic.Model.Rec.bitLen e.r
+    match f, beyond with
+    | some f, false => some { model := fmtOpt (f p k), spec := [sp], tags := ("mul." ++ v) :: ordTag c "p" p }
+    | _, _ => cls sp ((if beyond then ["fix_basic.beyond-table"] else []) ++ ordTag c "p" p)
   | "eds", [v, p, k, q, m] => do
     let p0 ← parsePoint p
     let q ← parsePoint q
     let k ← parseHexInt k
     let m ← parseHexInt m
     let p := if v == "gen" then e.g else p0
-    cls (fmtPoint (add c (mul c p k) (mul c q m))) []
+    let mulm := (e.kv.lookup "mulm").getD ""
+    let fixm := (e.kv.lookup "fixm").getD ""
+    let simm := (e.kv.lookup "simm").getD ""
+    let sp := fmtPoint (add c (mul c p k) (mul c q m))
+    let f : Option (Point → Int → Point → Int → Option Point) :=
+      if v == "sim" then simBy e simm
+      else if v == "gen" then do
+        let mu ← mulBy e mulm
+        let fx ← fixBy e fixm
+        let si ← simBy e simm
+        let plain := if simm == "inter" && fixm == "lwnaf" && e.kv.lookup "preco" == some "1"
+          then some (Relic.Model.EdMul.simPlainGen (gOps c) (parOf e)) else none
+        some (Relic.Model.EdMul.simGen (gOps c) (isO c) mu fx si plain)
+      else simBy e v
+    let beyond := v == "gen" && fixm == "basic" && Relic.Model.Rec.bitLen k.natAbs > Relic.Model.Rec.bitLen e.r
+    match f, beyond with
+    | some f, false => some { model := fmtOpt (f p k q m), spec := [sp], tags := ["sim." ++ v] }
+    | _, _ => cls sp []
   | "edla", _ :: rest => handle e w "edl" rest got
   | "edl", n :: rest => do
     let n ← n.toNat?
